@@ -130,8 +130,38 @@ def special_graphs():
             D = [(0.0, 0.0), (0.0, 1.0), (0.5, 1.75), (-0.5, 1.75), (0.0, 2.5), (0.0, 3.5), (0.0, 4.5)]
         dia = {0: (D[0], [1]), 1: (D[1], [2, 3]), 2: (D[2], [4]), 3: (D[3], [4]), 4: (D[4], [5]), 5: (D[5], [6]), 6: (D[6], [])}
         yield (f"diamond7-1way-{pos}", pos, dia)
+        # two one-way roads that cross in an X and re-converge after the same number of edges, then a single long road:
+        # chains grown from two different emitting states of the same observation merge inside a non-emitting run
+        if pos == "GRID":
+            X = [(0.0, -1.0), (0.3, -1.0), (0.3, 1.0), (-0.3, 1.0), (0.2, 2.0), (0.2, 3.0), (0.2, 4.0), (0.2, 7.0)]
+        else:
+            X = [(0.01, -1.02), (0.31, -0.97), (0.29, 1.03), (-0.32, 0.98), (0.21, 2.04), (0.19, 3.01), (0.22, 4.02), (0.18, 7.03)]
+        cross = {0: (X[0], [2]), 1: (X[1], [3]), 2: (X[2], [4]), 3: (X[3], [4]), 4: (X[4], [5]), 5: (X[5], [6]), 6: (X[6], [7]), 7: (X[7], [])}
+        yield (f"cross8-1way-{pos}", pos, cross)
+        if pos == "GRID":
+            # a fork whose two branches are mirror images about the axis y = 0 for one layer and differ afterwards: with
+            # observations ON the axis the two branch states tie EXACTLY inside a non-emitting run, and what is kept at a
+            # width boundary decides between two different continuations
+            F = [(0.0, 0.0), (0.0, 1.0), (0.5, 1.75), (-0.5, 1.75), (0.5, 2.75), (-1.0, 2.75), (0.0, 3.75), (0.0, 4.75)]
+            fork = {0: (F[0], [1]), 1: (F[1], [2, 3]), 2: (F[2], [4]), 3: (F[3], [5]), 4: (F[4], [6]), 5: (F[5], [6]), 6: (F[6], [7]), 7: (F[7], [])}
+            yield ("fork8-1way-GRID", pos, fork)
         dia2 = {0: (D[0], [1]), 1: (D[1], [0, 2, 3]), 2: (D[2], [1, 4]), 3: (D[3], [1, 4]), 4: (D[4], [2, 3, 5]), 5: (D[5], [4, 6]), 6: (D[6], [5])}
         yield (f"diamond7-2way-{pos}", pos, dia2)
+
+
+AXIS_TRACES = [[(0.0, 0.5), (0.0, 4.25)], [(0.0, 0.5), (0.0, 3.0), (0.0, 4.5)], [(0.0, 0.25), (0.0, 0.75), (0.0, 4.25), (0.0, 4.5)],
+               [(0.0, 0.5), (0.0, 2.0), (0.0, 4.25)]]
+
+
+def axis_traces(graph):
+    """Observations on the symmetry axis of the fork8 graph (exact ties); empty for every other graph."""
+    if len(graph) == 8 and tuple(graph[0][0]) == (0.0, 0.0) and tuple(graph[3][0]) == (-0.5, 1.75):
+        return [list(t) for t in AXIS_TRACES]
+    if len(graph) == 8 and abs(graph[0][0][1] + 1.0) < 0.05 and abs(graph[7][0][1] - 7.0) < 0.05:
+        # cross8: two observations around the crossing, then a long gap to the last road
+        return [[(0.0, -0.5), (0.0, 0.5), (0.2, 6.0)], [(0.05, -0.6), (0.02, 0.4), (0.21, 5.5)], [(0.0, -0.5), (0.2, 6.0)],
+                [(0.15, -0.5), (0.0, 0.5), (0.2, 3.5), (0.2, 6.5)]]
+    return []
 
 
 def build_graph(gs, labels="int", selfnbr=False):
